@@ -2,6 +2,7 @@
 # Build (incrementally) the subject and the verification machinery, all offline:
 #   .build/bl/release/breadlog     the real executable from /repo's working tree
 #   .build/fsshim.so               LD_PRELOAD fault/trace interposer
+#   .build/fuzz/x86_64-unknown-linux-gnu/release/fz_{parse,edit}   libFuzzer targets (cargo-fuzz, nightly) for C17
 #   .build/c09rt/release/deps/liblog-*.rlib   log 0.4.22 with feature kv, for the compile-and-run check C09
 #   .build/harness/release/blverif harness linked against /repo's library with --features verif-hooks
 set -e
@@ -15,5 +16,6 @@ if [ ! -f "$VERIF/.build/fsshim.so" ] || [ "$VERIF/shim/fsshim.c" -nt "$VERIF/.b
   mv "$VERIF/.build/fsshim.so.tmp" "$VERIF/.build/fsshim.so"
 fi
 cargo build --release --offline --manifest-path /repo/Cargo.toml --bin breadlog --target-dir "$VERIF/.build/bl"
+( cd "$VERIF/fuzz" && cargo +nightly fuzz build -O --fuzz-dir "$VERIF/fuzz" --target-dir "$VERIF/.build/fuzz" )
 ( cd "$VERIF/c09rt" && cargo build --release --offline --target-dir "$VERIF/.build/c09rt" )
 ( cd "$VERIF/harness" && cargo build --release --offline --target-dir "$VERIF/.build/harness" )
